@@ -1,0 +1,170 @@
+//! verification hooks (feature `verif`): lock shim with a per-thread monitor, read-only accessors
+use std::cell::RefCell;
+use std::ops::{Deref, DerefMut};
+use std::panic::Location;
+use std::sync::Arc;
+use std::time::Duration;
+
+/// mode of a lock request
+#[derive(Debug, Clone, Copy, PartialEq, Eq, Hash)]
+pub enum LockMode {
+    /// shared
+    Read,
+    /// exclusive
+    Write,
+}
+
+/// kind of a lock request
+#[derive(Debug, Clone, Copy, PartialEq, Eq, Hash)]
+pub enum LockKind {
+    /// blocks until granted
+    Block,
+    /// fails immediately
+    Try,
+    /// fails after a timeout
+    Timed,
+}
+
+/// one lock event
+#[derive(Debug, Clone, Copy)]
+pub struct LockEvent {
+    /// address of the lock
+    pub lock: usize,
+    /// type name of the protected data
+    pub class: &'static str,
+    /// mode
+    pub mode: LockMode,
+    /// kind
+    pub kind: LockKind,
+    /// call site
+    pub site: &'static Location<'static>,
+}
+
+/// the monitor decides whether a request is granted (it may block the calling thread) and is told about releases
+pub trait LockMonitor {
+    /// return true when the lock has been granted logically; false for a failed try / timeout
+    fn request(&self, ev: &LockEvent) -> bool;
+    /// the guard was dropped
+    fn release(&self, ev: &LockEvent);
+}
+
+thread_local! {
+    static MONITOR: RefCell<Option<Arc<dyn LockMonitor>>> = const { RefCell::new(None) };
+}
+
+/// install (or remove) the monitor of the calling thread
+pub fn set_thread_monitor(m: Option<Arc<dyn LockMonitor>>) {
+    MONITOR.with(|c| *c.borrow_mut() = m);
+}
+
+fn monitor() -> Option<Arc<dyn LockMonitor>> {
+    MONITOR.with(|c| c.borrow().clone())
+}
+
+/// API-compatible stand-in for `parking_lot::RwLock`
+pub struct RwLock<T>(parking_lot::RwLock<T>);
+
+/// read guard
+pub struct ReadGuard<'a, T> {
+    g: Option<parking_lot::RwLockReadGuard<'a, T>>,
+    ev: Option<(Arc<dyn LockMonitor>, LockEvent)>,
+}
+
+/// write guard
+pub struct WriteGuard<'a, T> {
+    g: Option<parking_lot::RwLockWriteGuard<'a, T>>,
+    ev: Option<(Arc<dyn LockMonitor>, LockEvent)>,
+}
+
+impl<T> RwLock<T> {
+    /// new
+    pub fn new(v: T) -> Self {
+        Self(parking_lot::RwLock::new(v))
+    }
+    fn ev(&self, mode: LockMode, kind: LockKind, site: &'static Location<'static>) -> LockEvent {
+        LockEvent { lock: self as *const _ as usize, class: std::any::type_name::<T>(), mode, kind, site }
+    }
+    /// read
+    #[track_caller]
+    pub fn read(&self) -> ReadGuard<'_, T> {
+        if let Some(m) = monitor() {
+            let ev = self.ev(LockMode::Read, LockKind::Block, Location::caller());
+            assert!(m.request(&ev));
+            ReadGuard { g: Some(self.0.read()), ev: Some((m, ev)) }
+        } else {
+            ReadGuard { g: Some(self.0.read()), ev: None }
+        }
+    }
+    /// write
+    #[track_caller]
+    pub fn write(&self) -> WriteGuard<'_, T> {
+        if let Some(m) = monitor() {
+            let ev = self.ev(LockMode::Write, LockKind::Block, Location::caller());
+            assert!(m.request(&ev));
+            WriteGuard { g: Some(self.0.write()), ev: Some((m, ev)) }
+        } else {
+            WriteGuard { g: Some(self.0.write()), ev: None }
+        }
+    }
+    /// try_write
+    #[track_caller]
+    pub fn try_write(&self) -> Option<WriteGuard<'_, T>> {
+        if let Some(m) = monitor() {
+            let ev = self.ev(LockMode::Write, LockKind::Try, Location::caller());
+            if m.request(&ev) { Some(WriteGuard { g: Some(self.0.write()), ev: Some((m, ev)) }) } else { None }
+        } else {
+            self.0.try_write().map(|g| WriteGuard { g: Some(g), ev: None })
+        }
+    }
+    /// try_read_for
+    #[track_caller]
+    pub fn try_read_for(&self, d: Duration) -> Option<ReadGuard<'_, T>> {
+        if let Some(m) = monitor() {
+            let ev = self.ev(LockMode::Read, LockKind::Timed, Location::caller());
+            if m.request(&ev) { Some(ReadGuard { g: Some(self.0.read()), ev: Some((m, ev)) }) } else { None }
+        } else {
+            self.0.try_read_for(d).map(|g| ReadGuard { g: Some(g), ev: None })
+        }
+    }
+    /// try_write_for
+    #[track_caller]
+    pub fn try_write_for(&self, d: Duration) -> Option<WriteGuard<'_, T>> {
+        if let Some(m) = monitor() {
+            let ev = self.ev(LockMode::Write, LockKind::Timed, Location::caller());
+            if m.request(&ev) { Some(WriteGuard { g: Some(self.0.write()), ev: Some((m, ev)) }) } else { None }
+        } else {
+            self.0.try_write_for(d).map(|g| WriteGuard { g: Some(g), ev: None })
+        }
+    }
+}
+
+impl<T> Deref for ReadGuard<'_, T> {
+    type Target = T;
+    fn deref(&self) -> &T { self.g.as_ref().unwrap() }
+}
+impl<T> Deref for WriteGuard<'_, T> {
+    type Target = T;
+    fn deref(&self) -> &T { self.g.as_ref().unwrap() }
+}
+impl<T> DerefMut for WriteGuard<'_, T> {
+    fn deref_mut(&mut self) -> &mut T { self.g.as_mut().unwrap() }
+}
+impl<T> Drop for ReadGuard<'_, T> {
+    fn drop(&mut self) {
+        self.g.take();
+        if let Some((m, ev)) = self.ev.take() { m.release(&ev); }
+    }
+}
+impl<T> Drop for WriteGuard<'_, T> {
+    fn drop(&mut self) {
+        self.g.take();
+        if let Some((m, ev)) = self.ev.take() { m.release(&ev); }
+    }
+}
+
+impl crate::AutosarModel {
+    /// all keys and referrer lists of the reverse reference map
+    pub fn verif_reference_origins(&self) -> Vec<(String, Vec<crate::WeakElement>)> {
+        self.0.read().reference_origins.iter().map(|(k, v)| (k.clone(), v.clone())).collect()
+    }
+}
